@@ -49,3 +49,38 @@ PROPS["C02"] = dict(
     assumptions=["attacker-computable keys are the empty key and the public PEM text; other derived keys (DER, raw n) are not enumerated"],
     budget_s=dict(quick=600, thorough=3000),
 )
+
+# ---------------------------------------------------------------- C03
+PROPS["C03"] = dict(
+    level="exploration",
+    technique="exhaustive enumeration of checker/builder configurations x token shapes on the real code against the statement's decision table",
+    level_text=("every checker/builder configuration of the quantifier (key absent/present, alg attribute, explicit alg, five "
+                "routes incl. callbacks that set key, alg or nothing) x every token shape (header alg spellings, missing/non-string "
+                "alg, 2/3/4 segments, empty and non-empty third segment) is executed; acceptance/production is compared with the "
+                "statement's two clauses"),
+    level_note="trusts the harness's effective-configuration model (documented setkey table) and ref_token",
+    rule=("cells = key (absent + pool) x alg attribute x configured alg (7) x route (5) x header shape (18) x tail shape (13) for the "
+          "checker, key x private/public x attribute (absent, matching, unknown) x alg x route for the builder; non-trivial = the "
+          "library accepted/produced a token and the clause for that configuration permits it; distinct by cell descriptor"),
+    runs=_both_providers("policy"),
+    bound=dict(quick="4 keys, all routes/headers/tails", thorough="8 keys, all routes/headers/tails"),
+    assumptions=["a callback that removes a configured key is outside the alphabet (the application withdrawing its own key)"],
+    budget_s=dict(quick=600, thorough=1800),
+)
+
+# ---------------------------------------------------------------- C09
+PROPS["C09"] = dict(
+    level="exploration",
+    technique="exhaustive enumeration of key sizes/curves x algorithms x {generate, verify} x providers on the real code",
+    level_text=("every oct length 1-160 x HS256/384/512, every pool RSA size (512...4096 incl. 2047/2048/2056, e=3, 33-bit e, RSA-PSS) "
+                "x RS*/PS*, every curve x every ES*, Ed25519/Ed448/X25519 x EdDSA, plus every cross-family pair, for generate and "
+                "for verify of a token made by the reference with the weak key itself; both providers"),
+    level_note="the verify token is signed by ref_crypto with the same weak key, so a loosened floor shows up as an acceptance",
+    rule=("one cell per (key, algorithm); each cell runs generate and verify; non-trivial = a key at/above the floor that generated "
+          "a token which the reference verifies, or whose reference-signed token the library accepts; distinct by cell descriptor"),
+    runs=_both_providers("policy", shards=8),
+    bound=dict(quick="all cells", thorough="all cells"),
+    assumptions=["oct length 0 has no JWK representation (an empty k is an import error) and is covered by C07",
+                 "secp256k1/ES256K on GnuTLS: refusal only (not compiled in that provider), no completeness demand"],
+    budget_s=dict(quick=600, thorough=900),
+)
